@@ -107,6 +107,22 @@ fn main() {
             run_model(vec![(crash_prop("C03", Judge::Prefix, 5, false), 60, 1500), (crash_prop("C03", Judge::Prefix, 0, false), 8, 300), (crash_prop("C03", Judge::Prefix, 5, true), 12, 300)], tier, replay)
         }
         "C15" => run_model(vec![(skv_verif::engine_fault::c15(4, false), 300, 6000), (skv_verif::engine_fault::c15(0, false), 20, 600), (skv_verif::engine_fault::c15(9, true), 32, 800)], tier, replay),
+        "C04" => {
+            use skv_verif::engine_sched::{sched_prop, Flavor};
+            run_model(vec![(sched_prop("C04", Flavor::C04), 2500, 50000)], tier, replay)
+        }
+        "C05" => {
+            use skv_verif::engine_sched::{sched_prop, Flavor};
+            run_model(vec![(sched_prop("C05", Flavor::C05), 2500, 50000)], tier, replay)
+        }
+        "C17" => {
+            use skv_verif::engine_sched::{sched_prop, Flavor};
+            run_model(vec![(sched_prop("C17", Flavor::C17), 1500, 30000)], tier, replay)
+        }
+        "C01S" => {
+            use skv_verif::engine_sched::{sched_prop, Flavor};
+            run_model(vec![(sched_prop("C01", Flavor::C01), 2000, 40000)], tier, replay)
+        }
         "C06" => run_model(vec![(props::c06(), 6000, 120000)], tier, replay),
         "C07" => {
             use skv_verif::engine_crash::{crash_prop, Judge};
